@@ -17,7 +17,7 @@ YOUR TASK: write ONE realistic change to the library source (a plausible refacto
 Steps:
 1. Read the anchored code. Decide on the change. Make it in {wt}.
 2. Write a demonstration `demo.py` at {wt}/demo.py: a small self-contained program that exits 0 (printing PASS) on the ORIGINAL code and exits 1 (printing FAIL and why) with your change. It must exercise the library's real API and check the property (not internals). If the library needs prior configuration use explicit priors (e.g. af.Model(af.Gaussian, centre=af.UniformPrior(0,1), ...)) or `from autoconf import conf; conf.instance.push(new_path="{wt}/test_autofit/config", output_path="<a temp dir>")`.
-3. Verify: with your change `cd {wt} && PYTHONPATH={wt} /venv/bin/python demo.py` fails; `git stash` (or `git diff > /tmp/x.diff; git checkout -- autofit`) and it passes; re-apply the change. Run the relevant existing tests with the change applied and confirm they pass: `cd {wt} && /venv/bin/python -m pytest -q -p no:cacheprovider -x <relevant test dirs under test_autofit>` (the full suite has ~1090 tests and takes several minutes; run at least the directories that cover the files you touched, and preferably the whole suite: `/venv/bin/python -m pytest -q -p no:cacheprovider --timeout=900`).
+3. Verify: with your change `cd {wt} && PYTHONPATH={wt} /venv/bin/python demo.py` fails; `git diff -- autofit > {wt}/seed.diff; git checkout -- autofit` (do NOT use `git stash`: the stash is shared between worktrees of the same repository and other people are using it) and it passes; re-apply the change with `git apply {wt}/seed.diff` and confirm with `git diff --stat` that only your own files are modified. Run the relevant existing tests with the change applied and confirm they pass: `cd {wt} && /venv/bin/python -m pytest -q -p no:cacheprovider -x <relevant test dirs under test_autofit>` (the full suite has ~1090 tests and takes several minutes; run at least the directories that cover the files you touched, and preferably the whole suite: `/venv/bin/python -m pytest -q -p no:cacheprovider --timeout=900`).
 4. Leave the worktree with the change applied (uncommitted) and demo.py present. Write {wt}/seed_meta.json: {{"property": "{pid}", "summary": "<one sentence: what was changed>", "needs": "<what specific condition makes it manifest>", "files": [...], "tests_run": "<command and result>"}}.
 
 Final message: the diff (git diff of autofit/), what it needs to manifest, the demo result with and without the change, and the tests you ran with their result. Be honest if some existing test fails with your change (then choose a different change).""")
